@@ -237,6 +237,36 @@ theorem p_accept_ema (a p0 : α) (inds : List Bool) :
     rw [this]
     ring
 
+/-- one update is monotone in the previous estimate and in the indicator. -/
+theorem ema_mono (a p q : α) (i j : Bool) (ha0 : 0 ≤ a) (ha1 : a ≤ 1) (hpq : p ≤ q) (hij : i = true → j = true) :
+    emaStep a p i ≤ emaStep a q j := by
+  unfold emaStep
+  simp only [Nat.cast_one]
+  have h1 : (1 - a) * p ≤ (1 - a) * q := mul_le_mul_of_nonneg_left hpq (by linarith)
+  have h2 : a * (if i = true then (1 : α) else 0) ≤ a * (if j = true then (1 : α) else 0) := by
+    apply mul_le_mul_of_nonneg_left _ ha0
+    cases i <;> cases j <;> simp_all
+  linarith
+
+/-- **more moves, higher reported rate**: if history 2 moves whenever history 1 does, its acceptance estimate is at least
+    that of history 1 — an indicator that misses moves (or invents them) changes the estimate in a definite direction. -/
+theorem p_accept_mono (a p q : α) (pairs : List (Bool × Bool)) (ha0 : 0 ≤ a) (ha1 : a ≤ 1) (hpq : p ≤ q)
+    (h : ∀ x ∈ pairs, x.1 = true → x.2 = true) :
+    (pairs.map (·.1)).foldl (emaStep a) p ≤ (pairs.map (·.2)).foldl (emaStep a) q := by
+  induction pairs generalizing p q with
+  | nil => simpa using hpq
+  | cons x xs ih =>
+    simp only [List.map_cons, List.foldl_cons]
+    apply ih
+    · exact ema_mono a p q x.1 x.2 ha0 ha1 hpq (h x (by simp))
+    · intro y hy; exact h y (by simp [hy])
+
+/-- a missed move strictly lowers the next estimate (weight `a > 0`). -/
+theorem ema_strict (a p : α) (ha : 0 < a) : emaStep a p false < emaStep a p true := by
+  unfold emaStep
+  simp only [Nat.cast_one, Bool.false_eq_true, if_false, if_true, mul_zero, add_zero, mul_one]
+  linarith
+
 end order
 
 /-! ### non-vacuity -/
